@@ -36,6 +36,7 @@ type c13Case struct {
 	CredMD   map[string]string `json:",omitempty"`
 	CallerMD MDSpec            `json:",omitempty"`
 	Fail     uint32            `json:",omitempty"` // the handler fails with this code (the call still reached the server)
+	Append   bool              `json:",omitempty"` // the caller attaches part of its metadata with AppendToOutgoingContext
 }
 
 type testCreds struct {
@@ -183,7 +184,19 @@ func propC13(c c13Case) *Outcome {
 	ctx, cancel := context.WithCancel(context.Background())
 	defer cancel()
 	if len(c.CallerMD) > 0 {
-		ctx = metadata.NewOutgoingContext(ctx, c.CallerMD.MD())
+		if c.Append {
+			half := len(c.CallerMD) / 2
+			if half > 0 {
+				ctx = metadata.NewOutgoingContext(ctx, c.CallerMD[:half].MD())
+			}
+			var kv []string
+			for _, p := range c.CallerMD[half:] {
+				kv = append(kv, p.K, string(p.V))
+			}
+			ctx = metadata.AppendToOutgoingContext(ctx, kv...)
+		} else {
+			ctx = metadata.NewOutgoingContext(ctx, c.CallerMD.MD())
+		}
 	}
 	var err error
 	stall := guard("call", func() {
@@ -373,6 +386,7 @@ func genC13(t *rapid.T) c13Case {
 	c.PeerOpt = rapid.IntRange(0, 2).Draw(t, "peeropts")
 	c.HdrOpt = rapid.Bool().Draw(t, "hdropt")
 	c.CallerMD = genMD(t, "caller", 3)
+	c.Append = rapid.Bool().Draw(t, "append")
 	if rapid.IntRange(0, 3).Draw(t, "fail") == 0 {
 		c.Fail = rapid.SampledFrom([]uint32{5, 9, 13}).Draw(t, "failcode")
 	}
